@@ -56,7 +56,7 @@ func TestMain(m *testing.M) {
 
 var (
 	cfg      = types.NewChain33Config(types.GetDefaultCfgstring()) // one per process; read-only here
-	opLimit  = types.MaxCoin * cfg.GetCoinPrecision()               // amounts must be in (0, opLimit)
+	opLimit  = types.MaxCoin * cfg.GetCoinPrecision()              // amounts must be in (0, opLimit)
 	balLimit = types.MaxTokenBalance
 	bigMaxI  = big.NewInt(math.MaxInt64)
 	bigBal   = big.NewInt(balLimit)
@@ -207,6 +207,10 @@ func (m *model) gap(x string) *big.Int {
 	}
 	return g
 }
+
+// operations that touch an account held under an executor
+var subLedger = map[string]bool{"TransferToExec": true, "TransferWithdraw": true, "ExecFrozen": true, "ExecActive": true, "ExecTransfer": true,
+	"ExecTransferFrozen": true, "ExecDepositFrozen": true, "ExecDeposit": true, "ExecWithdraw": true, "GenesisInitExec": true}
 
 var composite = map[string]bool{"TransferToExec": true, "TransferWithdraw": true, "ExecFrozen": true, "ExecActive": true, "ExecTransfer": true,
 	"ExecTransferFrozen": true, "ExecDepositFrozen": true, "GenesisInitExec": true}
@@ -428,7 +432,7 @@ func (w *world) step(o op) (msg string) {
 		if i == 0 {
 			lib.Class("op:" + o.Op + ":ok")
 		}
-		if strings.HasPrefix(o.Op, "Exec") && len(w.spellings[canon(o.A)]) >= 2 {
+		if subLedger[o.Op] && len(w.spellings[canon(o.A)]) >= 2 {
 			w.ntAlias = true
 		}
 		w.m.apply(o)
@@ -722,6 +726,9 @@ func (w *world) genOp(t *rapid.T, first bool) op {
 			o.Amt = opLimit - 1
 		}
 	}
+	if o.Op == "ExecIssueCoins" {
+		o.A = "" // takes no user address
+	}
 	w.avoidKnown(t, &o)
 	return o
 }
@@ -799,8 +806,27 @@ func (w *world) avoidKnown(t *rapid.T, o *op) {
 		if credited != nil {
 			room := new(big.Int).Sub(bigMaxI, credited)
 			if fit := fitReps(room); fit < reps {
-				lib.ExcludedKnown(kSubAdd)
-				shrink(fit, room)
+				// the wrapping repetition must actually be reached: the operation's own checks pass fit+1 times
+				need := new(big.Int).Mul(amt, big.NewInt(fit+1))
+				has := func(v *big.Int) bool { return v.Cmp(need) >= 0 }
+				fitsMain := func(a string) bool { return new(big.Int).Add(w.m.mainOf(a), need).Cmp(bigBal) <= 0 }
+				reached := true
+				switch o.Op {
+				case "GenesisInitExec", "ExecDepositFrozen":
+					reached = fitsMain(o.X)
+				case "TransferToExec":
+					reached = has(w.m.mainOf(o.A)) && fitsMain(o.X)
+				case "ExecActive":
+					reached = has(w.m.subOf(o.X, o.A).frz)
+				case "ExecFrozen", "ExecTransfer":
+					reached = has(w.m.subOf(o.X, o.A).bal)
+				case "ExecTransferFrozen":
+					reached = has(w.m.subOf(o.X, o.A).frz)
+				}
+				if reached {
+					lib.ExcludedKnown(kSubAdd)
+					shrink(fit, room)
+				}
 			}
 		}
 	}
